@@ -71,6 +71,32 @@ impl<'a> LGen<'a> {
         }
     }
 
+    /// the operand of `...T` or the key type of a table indexer: mostly a name, sometimes a
+    /// parenthesised function type / chain / optional (the parentheses carry meaning there)
+    fn operand_type(&mut self) {
+        match self.rng.below(10) {
+            0 => {
+                self.t("(");
+                self.fn_type(1);
+                self.t(")");
+            }
+            1 => {
+                self.t("(");
+                let u = self.rng.chance(1, 2);
+                self.chain(0, u);
+                self.t(")");
+            }
+            2 => {
+                self.t("(");
+                self.simple_type();
+                self.t("?");
+                self.t(")");
+            }
+            3 => self.table_type(1),
+            _ => self.simple_type(),
+        }
+    }
+
     /// something that may stand where a type pack is expected (generic argument, return type)
     fn pack(&mut self, depth: usize) {
         match self.rng.below(6) {
@@ -87,13 +113,13 @@ impl<'a> LGen<'a> {
                 if self.rng.chance(1, 4) {
                     self.t(",");
                     self.t("...");
-                    self.simple_type();
+                    self.operand_type();
                 }
                 self.t(")");
             }
             2 => {
                 self.t("...");
-                self.simple_type();
+                self.operand_type();
             }
             3 if !self.scope_p.is_empty() => {
                 let n = self.rng.pick(&self.scope_p).clone();
@@ -154,7 +180,7 @@ impl<'a> LGen<'a> {
                 self.t("...");
             } else {
                 self.t("...");
-                self.simple_type();
+                self.operand_type();
             }
         }
         self.t(")");
@@ -180,7 +206,7 @@ impl<'a> LGen<'a> {
             1 => self.ty(d),
             2 => {
                 self.t("[");
-                self.simple_type();
+                self.operand_type();
                 self.t("]");
                 self.t(":");
                 self.ty(d);
@@ -200,7 +226,7 @@ impl<'a> LGen<'a> {
                     if !indexer_done && self.rng.chance(1, 6) {
                         indexer_done = true;
                         self.t("[");
-                        self.simple_type();
+                        self.operand_type();
                         self.t("]");
                     } else if self.rng.chance(1, 8) {
                         self.ts(&["[", "\"quoted key\"", "]"]);
@@ -373,7 +399,7 @@ impl<'a> LGen<'a> {
                     }
                     3 => {
                         self.t("...");
-                        self.simple_type();
+                        self.operand_type();
                     }
                     _ => {
                         if let Some(p) = self.scope_p.last().cloned() {
